@@ -369,7 +369,7 @@ pub fn gen_msg(rng: &mut Rng, cfg: &PacketCfg) -> Msg {
     // bulk for the size classes: opaque records in answer (response) or additional
     let bulk_target = match cfg.shape {
         Shape::Big => Some(rng.range(8000, 12000)),
-        Shape::Huge => Some(rng.range(60000, 65000)),
+        Shape::Huge => Some(if rng.bool() { rng.range(65100, 65400) } else { rng.range(60000, 65000) }),
         _ => None,
     };
     if let Some(target) = bulk_target {
